@@ -293,8 +293,9 @@ def make_for_index_rule(iter_text, elem_prefix="&"):
                     continue
                 pat = toktext(toks, s[n + 1], s[m]).strip()
                 op = s[m + 1 + len(want)]
-                edits.delete(i, op)
-                edits.ins_before(i, "let mut verif_i: usize = 0; while verif_i < %s.len() " % iter_text, None)
+                edits.delete(i + 1, op)
+                edits.ins_before(i, "let mut verif_i: usize = 0; ", None)
+                edits.replace[i] = "while verif_i < %s.len() " % iter_text
                 edits.ins_after(op, " let %s = %s%s[verif_i]; verif_i += 1; " % (pat, elem_prefix, iter_text), None)
                 log("R-for-slice: for %s in %s" % (pat, iter_text))
     return rule
@@ -388,9 +389,17 @@ def make_for_rule(name, matcher):
             if r is None:
                 continue
             setup, cond, bind = r
-            edits.delete(i, j)
-            edits.ins_before(i, "%s while %s " % (setup, cond), None)
-            edits.ins_after(j, " %s " % bind, None)
+            edits.delete(i + 1, j)
+            edits.ins_before(i, setup + " ", None)
+            edits.replace[i] = "while %s " % cond
+            if "@@SKIP@@" in bind:
+                b1, b2 = bind.split("@@SKIP@@")
+                # segments in order: b1, slot, b2  (ins_after inserts at the front, so add in reverse)
+                edits.ins_after(j, " %s " % b2, None)
+                edits.ins_after(j, "/*verif-skip-slot*/", None)
+                edits.ins_after(j, " %s " % b1, None)
+            else:
+                edits.ins_after(j, " %s " % bind, None)
             log("%s: for %s in %s" % (name, pat, iter_text))
     return rule
 
@@ -769,7 +778,7 @@ class Generator:
                 # rename and add `ensures false`
                 j = next_sig(toks, it.kw + 1, it.end)
                 edits.replace[j] = toks[j].text + "__canary"
-                if not (blk and any(c.kind == "ensures" for c in blk.clauses)):
+                if blk is None:
                     self._insert_sig_clauses(it, edits, [("ensures", "canary", "false", None)], fnpath + "#canary", blk)
             if blk is not None:
                 for a in blk.attrs:
@@ -915,18 +924,21 @@ class Generator:
             kw, op, cl = loops[k - 1]
             _check_ghost(body, "%s:%d" % (blk.specfile, line))
             o = {"o": "spec", "f": blk.specfile, "l": line, "fn": fnpath, "kind": "hint"}
-            if where_ == "body-start":
+            if where_ == "skip":
+                segs = edits.after.get(op, [])
+                for n_, (t_, o_) in enumerate(segs):
+                    if t_ == "/*verif-skip-slot*/":
+                        segs[n_] = ("\n" + body + "\n", o)
+                        break
+                else:
+                    lost("loop %d skip" % k, "loop has no filter / skip slot")
+            elif where_ == "body-start":
                 edits.ins_after_append(op, "\n" + body + "\n", o)
             elif where_ == "body-end":
                 edits.ins_before(cl, "\n" + body + "\n", o)
             elif where_ == "before":
-                try:
-                    a, arm = stmt_start_before(toks, kw, lo - 1)
-                    if arm:
-                        raise LostAnchor("loop is a match arm body")
-                    edits.ins_after_append(a, "\n" + body + "\n", o)
-                except LostAnchor as e:
-                    lost("loop %d before" % k, str(e))
+                # directly in front of the loop keyword (after any setup a loop rewrite rule put there)
+                edits.ins_before(kw, "\n" + body + "\n", o)
             else:
                 edits.ins_after_append(cl, "\n" + body + "\n", o)
         for where_, k, seq, body, line in blk.ats:
